@@ -23,6 +23,30 @@ reg(
   "Trusts the ample-capacity run as reference; CPU device only; nothing is proved for ungenerated models.",
 )
 
+reg(
+  "C01",
+  "property-based differential testing (Hypothesis) against MuJoCo C mj_kinematics/mj_comPos/mj_camlight/mj_tendon",
+  "Random kinematic trees (all joint types, multi-joint and welded bodies, mocap, unnormalised quaternions, cameras/lights in every mode, fixed and "
+  "spatial tendons with wrapping/pulleys) x random qpos in 1-3 worlds; every kinematic output field compared with MuJoCo C on the float32-rounded state.",
+  "MuJoCo C 3.13 bindings are the trusted reference; tolerance 2e-5..1e-4 relative to scene scale (observed error <= 2e-6); tendon wrap tangency switches are boundary-skipped.",
+)
+reg(
+  "C02",
+  "property-based differential testing (Hypothesis) against MuJoCo C mj_forward smooth-dynamics fields",
+  "Random articulated models with armature, polynomial springs/dampers, gravcomp, fluid (both models), tendons, forced chain sizes covering the inertia "
+  "block layouts (1..70 dofs, dense and sparse) x random states; M, bias, every passive component, cvel, cdof_dot, qfrc_smooth and qacc_smooth compared.",
+  "MuJoCo C is the reference; qacc_smooth tolerance scales with cond(M) and is skipped above 1e6.",
+)
+reg(
+  "C04",
+  "property-based differential testing (Hypothesis): contact multisets vs MuJoCo C mj_collision, arbitrated by an independent support-function distance reference",
+  "Generated scenes (sphere/capsule/ellipsoid/cylinder/box/mesh/plane, drawn separations incl. touching/in-margin/in-gap, aligned and random poses, "
+  "priority/solmix/solref/solimp/friction/condim/margin/gap, explicit pairs, cones, NATIVECCD/MULTICCD on/off, 1-2 worlds). Primitive pairs: exact multiset; "
+  "single-contact CCD: count/params + geometry vs MuJoCo or vs the geometric reference; multi-contact pairs: presence, deepest contact, parameters.",
+  "MuJoCo C is the reference; where MuJoCo and MJWarp disagree on a convex pair a brute-force support-function signed distance decides; deep CCD penetrations "
+  "(depth > 25% of the smaller bounding radius) are judged on presence/sign/parameters only; contacts within 2e-4/3e-3 of their margin are boundary-skipped.",
+)
+
 NOT_APPLICABLE = {}
 
 
